@@ -4,6 +4,7 @@ import (
 	"fmt"
 	"go/token"
 	"go/types"
+	"os"
 	"sort"
 	"strings"
 
@@ -85,6 +86,9 @@ func c04ReadLoops(c *core.Ctx) {
 				for len(q) > 0 && bad == "" {
 					x := q[0]
 					q = q[1:]
+					if os.Getenv("NDND_DEBUG") != "" {
+						fmt.Fprintf(os.Stderr, "R4.17 %s: from b%d edge %d: visit b%d delegated=%v\n", core.FuncName(s.fn), b.Index, k, x.Index, c04Delegated(x, errv))
+					}
 					if x == s.call.Block() {
 						bad = fmt.Sprintf("from the error branch at %s the loop goes round to the read again", c.Pos(iff))
 						break
@@ -93,7 +97,32 @@ func c04ReadLoops(c *core.Ctx) {
 						continue // somebody else decides about this error: its answer is tested
 					}
 					for _, y := range x.Succs {
-						if !seen[y] {
+						// the join of a short circuit (`p != nil && p(err)`): coming from
+						// the side on which the left operand already decided, the branch
+						// on the phi goes one way only
+						if len(y.Instrs) > 0 {
+							if yif, isIf := y.Instrs[len(y.Instrs)-1].(*ssa.If); isIf {
+								if phi, isPhi := yif.Cond.(*ssa.Phi); isPhi && phi.Block() == y && len(y.Instrs) == 2 {
+									for pi, pr := range y.Preds {
+										if pr != x || pi >= len(phi.Edges) {
+											continue
+										}
+										if kc, isK := phi.Edges[pi].(*ssa.Const); isK && kc.Value != nil {
+											only := y.Succs[1]
+											if kc.Value.String() == "true" {
+												only = y.Succs[0]
+											}
+											if !seen[only] {
+												seen[only] = true
+												q = append(q, only)
+											}
+											y = nil
+										}
+									}
+								}
+							}
+						}
+						if y != nil && !seen[y] {
 							seen[y] = true
 							q = append(q, y)
 						}
